@@ -212,11 +212,15 @@ def extract_entity(defs, consts):
     # cdata literals
     body = fn_body(src, "serialize_cdata", "cdata literals")
     ps = [unescape(p) for p in re.findall(r'push_str\(\s*"((?:\\.|[^"\\])*)"\s*\)', body)]
-    if len(ps) != 3:
-        raise ExtractError(f"cdata literals: expected 3 push_str literals in serialize_cdata, found {len(ps)}")
+    if len(ps) != 4:
+        raise ExtractError(f"cdata literals: expected 4 push_str literals in serialize_cdata (open, ]]> split, CR split, close), found {len(ps)}")
+    arms = {m.group(1) for m in re.finditer(r"'((?:\\.|[^\\'])+)'\s*=>", body)}
+    if arms != {"]", ">", "\\r"}:
+        raise ExtractError(f"serialize_cdata: expected exactly the arms ']' '>' '\\r' and _, found {sorted(arms)}")
     defs.append(f"def cdataOpen : List Char := {lean_str(ps[0])}\n")
     defs.append(f"def cdataSplit : List Char := {lean_str(ps[1])}\n")
-    defs.append(f"def cdataClose : List Char := {lean_str(ps[2])}\n")
+    defs.append(f"def cdataCr : List Char := {lean_str(ps[2])}\n")
+    defs.append(f"def cdataClose : List Char := {lean_str(ps[3])}\n")
     consts["cdata"] = ps
 
 
@@ -409,7 +413,7 @@ def extract_xml_render(defs, consts):
             lits.append(("fmt", unescape(m.group(1))))
         else:
             lits.append(("lit", unescape(m.group(2))))
-    names = [("fmtStartTagOpen", "fmt", 1), ("litEmptyTagClose", "lit", 0), ("litTagClose", "lit", 0),
+    names = [("litMissingPrefixNoNamespace", "lit", 0), ("fmtStartTagOpen", "fmt", 1), ("litEmptyTagClose", "lit", 0), ("litTagClose", "lit", 0),
              ("fmtEndTag", "fmt", 1), ("litEmptyEndTag", "lit", 0), ("litXmlPrefix", "lit", 0),
              ("fmtXmlnsDefault", "fmt", 1), ("fmtXmlnsPrefix", "fmt", 2), ("fmtAttribute", "fmt", 2),
              ("fmtComment", "fmt", 1), ("fmtPiData", "fmt", 2), ("fmtPi", "fmt", 1)]
